@@ -6,6 +6,7 @@ package main
 // schedules, workloads and faults only.
 
 import (
+	"math"
 	"encoding/json"
 	"fmt"
 	"math/big"
@@ -42,6 +43,7 @@ import (
 
 	"github.com/noble-assets/orbiter/v2/simapp"
 	orbitertypes "github.com/noble-assets/orbiter/v2/types"
+	dispatchertypes "github.com/noble-assets/orbiter/v2/types/component/dispatcher"
 	"github.com/noble-assets/orbiter/v2/types/core"
 )
 
@@ -310,6 +312,38 @@ func newGenesisOnlyNode(env *Env, orbiterGen *orbitertypes.GenesisState) *Node {
 // NewWorld boots a node and performs the seed-independent set-up blocks:
 // channel handshakes, Hyperlane objects, initial outward transfers that give the
 // remote users vouchers (and the A-end escrows their funds).
+// worldOrbiterGenesis: when set, the next world starts from this orbiter genesis section instead of the default one.
+var worldOrbiterGenesis *orbitertypes.GenesisState
+
+// saturatedStatsGenesis: a validated genesis whose dispatch statistics sit at the top of their ranges for every
+// route out of every channel (totals 2^256-1, counters 2^64-1): every statistics update of the run fails.
+func saturatedStatsGenesis() *orbitertypes.GenesisState {
+	g := orbitertypes.DefaultGenesisState()
+	maxInt, _ := sdkmath.NewIntFromString("115792089237316195423570985008687907853269984665640564039457584007913129639935")
+	for p := 0; p < NumPairs; p++ {
+		src := core.CrossChainID{ProtocolId: core.PROTOCOL_IBC, CounterpartyId: chanA(p)}
+		add := func(proto core.ProtocolID, cp string) {
+			s, d := src, core.CrossChainID{ProtocolId: proto, CounterpartyId: cp}
+			g.DispatcherGenesis.DispatchedCounts = append(g.DispatcherGenesis.DispatchedCounts, dispatchertypes.DispatchCountEntry{SourceId: &s, DestinationId: &d, Count: math.MaxUint64})
+			for _, den := range []string{DenomUSDC, DenomOther, DenomHuge} {
+				s2, d2 := src, d
+				g.DispatcherGenesis.DispatchedAmounts = append(g.DispatcherGenesis.DispatchedAmounts, dispatchertypes.DispatchedAmountEntry{SourceId: &s2, DestinationId: &d2, Denom: den, AmountDispatched: dispatchertypes.AmountDispatched{Incoming: maxInt, Outgoing: maxInt}})
+			}
+		}
+		for _, d := range CCTPDomains {
+			add(core.PROTOCOL_CCTP, fmt.Sprint(d))
+		}
+		for _, d := range HypDomains {
+			add(core.PROTOCOL_HYPERLANE, fmt.Sprint(d))
+		}
+		add(core.PROTOCOL_INTERNAL, "noble")
+	}
+	if err := g.Validate(); err != nil {
+		panic(harnessErr("saturated statistics genesis does not validate: %v", err))
+	}
+	return g
+}
+
 func NewWorld(onBoot func(n *Node)) *Node {
 	env := newEnv()
 	n := &Node{Env: env, db: dbm.NewMemDB(), now: GenesisTime, OnBoot: onBoot}
@@ -318,8 +352,9 @@ func NewWorld(onBoot func(n *Node)) *Node {
 	n.Boot()
 	_, err := n.App.InitChain(&abci.RequestInitChain{
 		ChainId: ChainID, ConsensusParams: simtestutil.DefaultConsensusParams,
-		AppStateBytes: env.genesis(n.App, n.valSet, nil), Time: n.now,
+		AppStateBytes: env.genesis(n.App, n.valSet, worldOrbiterGenesis), Time: n.now,
 	})
+	worldOrbiterGenesis = nil
 	if err != nil {
 		panic(err)
 	}
